@@ -21,6 +21,7 @@ func init() {
 			{ID: "C18.R4", Floor: 2, Doc: "negotiation against SUPPORTED; compressor cleared whenever COMPRESSION is not sent", Run: c18r4},
 			{ID: "C18.R5", Floor: 5, Doc: "lz4 length-prefix agreement between Encode and Decode; no multiplication of lengths in 32-bit types", Run: c18r5},
 			{ID: "C18.R6", Floor: 1, Doc: "finish(): on every path that returns success the header announces compression exactly when the body was replaced by the compressor output", Run: c18r6},
+			{ID: "C18.R7", Floor: 1, Doc: "finish(): the length patched into the header is computed from the buffer in its final (compressed) form", Run: finishLength},
 		},
 		NeedsLZ4: true,
 	})
